@@ -168,6 +168,8 @@ func runC15(p *Prog, r *Result) {
 	if n := checkNoGoQuoting(p, r, "R15k"); n == 0 {
 		r.Notef("R15k: no call of strconv.Quote*/AppendQuote* or of a %%q formatter outside error messages in package typedjson")
 	}
+	r.Rule("R15l", "a position is written into the encoding only when it is valid: Decode cannot rebuild any other", 3)
+	checkOnlyValidPositionsEncoded(p, r, "R15l")
 	r.Rule("R15g", "a counter that a typedjson function increments and decrements is decremented on every path to a return", 0)
 	checkBalancedCounters(p, r, "syntax/typedjson", "R15g")
 	r.Rule("R15d", "reflect operations on untrusted-shape values in decodeValue/decodePos are dominated by the kind/assignability test that makes them safe", 23)
@@ -773,6 +775,8 @@ func unmarshalTable(info *types.Info, fd *ast.FuncDecl) (map[string]int64, strin
 }
 
 var c15Controls = []Control{
+	{Name: "recovered-positions-encoded", Rule: "R15l", WantKey: "encodePos#write 1", File: "syntax/typedjson/json.go",
+		Mutate: ctlReplaceAnywhere("\tif !val.IsValid() {\n\t\treturn\n\t}\n\tenc := reflect.New(exportedPosType.Elem())", "\tif !val.IsValid() && !val.IsRecovered() {\n\t\treturn\n\t}\n\tenc := reflect.New(exportedPosType.Elem())")},
 	{Name: "strings-marshalled-with-go-quoting", Rule: "R15k", WantKey: "MarshalJSON#Go quoting 1", File: "syntax/typedjson/json.go",
 		Mutate: ctlChain(ctlReplaceAnywhere("\tcase reflect.String:\n\t\tif val.String() != \"\" {\n\t\t\treturn val, \"\"\n\t\t}\n", "\tcase reflect.String:\n\t\tif s := val.String(); s != \"\" {\n\t\t\treturn reflect.ValueOf(quotedString(s)), \"\"\n\t\t}\n"),
 			ctlAppendDecl("type quotedString string\n\nfunc (s quotedString) MarshalJSON() ([]byte, error) {\n\treturn strconv.AppendQuote(make([]byte, 0, len(s)+2), string(s)), nil\n}\n"),
